@@ -1,3 +1,30 @@
-From Asynq Require Import Machine.
-Theorem C06_placeholder : True. Proof. exact I. Qed.
-Print Assumptions C06_placeholder.
+(* C06 — an AsyncContext is active exactly while its task, or work it awaits, runs.
+   Statements only; proofs in proofs/MachineDFS.v.  The model keeps, per task, the flag
+   _contexts_active; _resume_contexts/_pause_contexts flip it and call resume()/pause() on every open
+   context of the task, so the flag IS the state of the task's contexts between enter and exit.
+   Proved for yield-only tree programs (plain AsyncContexts and scoped overrides, every flush order):
+   (1) at the end of every _execute pass, hence at every scheduler flush, no uncompleted task has active
+       contexts; (2) while a task's body runs its contexts are active and any other uncompleted task with
+       active contexts is still on the scheduler's stack.
+   NOT proved: per-context resume/pause alternation as a trace property, the awaiting-ancestors
+   characterisation, NonAsyncContext, synchronous re-entry - correspondence + monitors. *)
+From Asynq Require Import Machine Seq proofs.MachineC08 proofs.MachineC01 proofs.MachineDFS.
+
+Theorem C06_contexts_paused_at_every_flush_tree : forall P, pointwise P -> forall p, tree p -> forall n,
+  let h := fst (create [] (FTask p) (st0 P)) in
+  let s1 := snd (create [] (FTask p) (st0 P)) in
+  no_unwind P n (start h s1) -> c_mode (run P n (start h s1)) = MAfterExec ->
+  forall u tk, get u (c_st (run P n (start h s1))) = Some (mkFut None (KTask tk)) ->
+    tk_cact tk = false /\ tk_ds tk = false.
+Proof. exact contexts_paused_at_flush_tree. Qed.
+Print Assumptions C06_contexts_paused_at_every_flush_tree.
+
+Theorem C06_contexts_active_while_own_code_runs_tree : forall P, pointwise P -> forall p, tree p -> forall n t q,
+  let h := fst (create [] (FTask p) (st0 P)) in
+  let s1 := snd (create [] (FTask p) (st0 P)) in
+  no_unwind P n (start h s1) -> c_mode (run P n (start h s1)) = MRun t q ->
+  (exists tk, get t (c_st (run P n (start h s1))) = Some (mkFut None (KTask tk)) /\ tk_cact tk = true) /\
+  (forall u tk, get u (c_st (run P n (start h s1))) = Some (mkFut None (KTask tk)) -> tk_cact tk = true ->
+     In u (tasks (c_st (run P n (start h s1))))).
+Proof. exact contexts_active_while_running_tree. Qed.
+Print Assumptions C06_contexts_active_while_own_code_runs_tree.
